@@ -163,6 +163,17 @@ Theorem C15_multicol_truncated_rejected : forall (add : bool) (g g0 : grid R) (n
 Proof. exact multicol_truncated_rejected. Qed.
 Print Assumptions C15_multicol_truncated_rejected.
 
+(* The re-gridding loop of read_multicol (file written on another grid), multiplicity 1, overwrite: it is the
+   record-by-record re-mapping `remap_record` of the first half, to which C15_remap_periodic_target and
+   C15_remap_lossless apply (every carrier; the loop ends where no further coordinates can be read). *)
+Theorem C15_regrid_is_remap : forall (T : Type) (O : NumOps T) (g : grid T), gr_mult g = 1%Z -> (0 < gnd g)%nat ->
+  forall (recs : list (list T * T)) (data : list T) (fuel : nat),
+  Forall (fun rc => length (fst rc) = gnd g) recs -> (length recs < fuel)%nat ->
+  remap_rows O fuel false g (flat_map record_toks recs) data
+  = Some (fold_left (remap_record O (geom_of g)) recs data, []).
+Proof. exact (@remap_rows_is_fold). Qed.
+Print Assumptions C15_regrid_is_remap.
+
 (* Restart (state) form: grid_parameters { n_colvars lower_boundaries upper_boundaries widths sizes } + raw data.
    Reading what was written gives back the grid -- sizes, boundaries, widths, periodicity flags, data --
    whatever the current sizes, boundaries, widths and data of the receiving grid are (a grid of the same
@@ -236,3 +247,10 @@ Proof.
   split; [reflexivity|]. split; [cbn; lia|].
   replace (length (strip (write_multicol Rops ex_grid))) with 36%nat by (symmetry; apply C15_example_grid_premises). lia.
 Qed.
+
+(* non-vacuity of C15_regrid_is_remap: one record read into a 1-D periodic grid of four bins *)
+Example C15_example_regrid :
+  let g := mkGrid 1%Z [4%Z] [0%R] [4%R] [1%R] [true] [0; 0; 0; 0]%R in
+  gr_mult g = 1%Z /\ (0 < gnd g)%nat /\ Forall (fun rc : list R * R => length (fst rc) = gnd g) [([5 / 2], 7)]%R /\
+  (length [([5 / 2], 7)]%R < 2)%nat.
+Proof. cbn. repeat split; try lia. repeat constructor. Qed.
